@@ -9,7 +9,8 @@ from .. import report as R
 from ..report import RuleSpec
 from .. import codec as C
 from .. import cmp as P
-from .common import fn_loc, short, unparse, returns_of, attr_chain
+from .common import fn_loc, short, unparse, returns_of, attr_chain, concrete_classes
+from . import rate_model as RM
 
 RATES = ["reamber.base.Map.Map.rate", "reamber.base.MapSet.MapSet.rate", "reamber.osu.OsuMap.OsuMap.rate",
          "reamber.sm.SMMapSet.SMMapSet.rate"]
@@ -23,10 +24,23 @@ def _by(fn) -> str:
     return ps[0]
 
 
+def _rate_methods(ctx) -> Dict[str, List[str]]:
+    """resolved rate method -> concrete classes that run it"""
+    M = ctx.M
+    out: Dict[str, List[str]] = {}
+    for kind in ("chart", "mapset"):
+        for c in concrete_classes(M, kind):
+            m = M.method(c, "rate")
+            if m is None:
+                raise AnalysisError(f"{c} has no rate()")
+            out.setdefault(m, []).append(c)
+    return out
+
+
 def rule_r1(ctx) -> List[R.Inst]:
     M, E = ctx.M, ctx.E
     insts = []
-    for q in RATES:
+    for q, classes in sorted(_rate_methods(ctx).items()):
         fn = M.fn(q)
         file, line = fn_loc(M, q)
         s = E.summary(q)
@@ -45,127 +59,71 @@ def rule_r1(ctx) -> List[R.Inst]:
     return insts
 
 
+WANT = {"offset": "div", "length": "div", "bpm": "mul"}
+
+
 def rule_r2(ctx) -> List[R.Inst]:
     M = ctx.M
-    q = RATES[0]
-    fn = M.fn(q)
-    ty = ctx.W.typer(q, None)
-    file, line = fn_loc(M, q)
-    by = _by(fn)
     insts = []
-    if P.rebinds(fn.node, by):
-        n = P.rebinds(fn.node, by)[0]
-        insts.append(R.viol("C13.R2", "rate-parameter", file, n.lineno,
-                            f"the rate parameter '{by}' is modified before / between the scalings", construct=unparse(n)))
-    # the stack must cover all lists of the copy
-    stack_vars = {}
-    for n in walk_no_nested(fn.node):
-        if isinstance(n, ast.Assign) and isinstance(n.targets[0], ast.Name) and isinstance(n.value, ast.Call) and \
-                isinstance(n.value.func, ast.Attribute) and n.value.func.attr == "stack":
-            stack_vars[n.targets[0].id] = n
-    ops: Dict[str, List[Tuple[str, ast.AST]]] = {}
-    for n in walk_no_nested(fn.node):
-        if not isinstance(n, (ast.Assign, ast.AugAssign)):
+    for chart in concrete_classes(M, "chart"):
+        sc = RM.effective(ctx, chart)
+        q = M.method(chart, "rate")
+        file, line = fn_loc(M, q)
+        cname = chart.rsplit(".", 1)[1]
+        for n, where in sc.rebinds_by:
+            insts.append(R.viol("C13.R2", f"{cname}:rate-parameter", file, n.lineno,
+                                f"the rate parameter is modified before / between the scalings (in {where})", construct=unparse(n)))
+        if sc.undecided:
+            # an unmodelled statement that uses the rate may be the scaling itself: no verdict on this class
+            insts.append(R.undec("C13.R2", f"{cname}:model", file, line, "; ".join(sorted(set(sc.undecided)))[:300]))
             continue
-        sc = P.scaling(n, by)
-        tgt = n.target if isinstance(n, ast.AugAssign) else n.targets[0]
-        if isinstance(tgt, ast.Attribute) and ty.kind(tgt.value)[0] == "stacker":
-            ops.setdefault(tgt.attr, []).append((sc[1] if sc else "other", n))
-            sv = tgt.value
-            if isinstance(sv, ast.Name) and sv.id in stack_vars:
-                call = stack_vars[sv.id].value
-                if call.args or call.keywords:
-                    insts.append(R.viol("C13.R2", f"stack-scope:{tgt.attr}", file, call.lineno,
-                                        "the stack used for scaling is restricted to some list types: the other lists keep "
-                                        "their old times", construct=unparse(call)))
-        elif isinstance(tgt, ast.Subscript) and ty.kind(tgt.value)[0] in ("stacker",):
-            nm = C.const_str(tgt.slice)
-            ops.setdefault(nm or "?", []).append((sc[1] if sc else "other", n))
-    want = {"offset": "div", "length": "div", "bpm": "mul"}
-    for name, op in want.items():
-        got = ops.get(name, [])
-        key = f"Map.rate:{name}"
-        if len(got) == 1 and got[0][0] == op:
-            insts.append(R.ok("C13.R2", key, file, got[0][1].lineno,
-                              idiom=f"{name} {'/' if op == 'div' else '*'}= {by} on the stack of all lists"))
-        elif not got:
-            insts.append(R.viol("C13.R2", key, file, line, f"'{name}' is never scaled by the rate",
-                                construct=f"Map.rate does not scale {name}"))
-        else:
-            n = got[0][1]
-            insts.append(R.viol("C13.R2", key, file, n.lineno,
-                                f"'{name}' must be {'divided' if op == 'div' else 'multiplied'} by the unmodified rate exactly once",
-                                construct="; ".join(unparse(g[1]) for g in got)))
-    for name in sorted(set(ops) - set(want)):
-        n = ops[name][0][1]
-        insts.append(R.viol("C13.R2", f"Map.rate:{name}", file, n.lineno,
-                            f"rate also rewrites '{name}', which is neither a time nor a tempo", construct=unparse(n)))
+        slots = M.map_slots(chart)
+        for col, want in WANT.items():
+            key = f"{cname}:{col}"
+            bad, good, node = [], 0, None
+            for slot, lc in sorted(slots.items()):
+                if col not in M.list_columns(lc):
+                    continue
+                ops = [(g, op, nd, wh) for (g, c, op, nd, wh) in sc.list_ops
+                       if c in (col, "*") and (g is None or any(M.is_sub(lc, b) for b in g))]
+                if len(ops) == 1 and ops[0][1] == want:
+                    good += 1
+                    node = ops[0][2]
+                elif not ops:
+                    bad.append(f"{slot} ({lc.rsplit('.', 1)[1]}) is never scaled")
+                else:
+                    node = ops[0][2]
+                    bad.append(f"{slot} is scaled as {[o[1] for o in ops]}")
+            if bad:
+                insts.append(R.viol("C13.R2", key, file, getattr(node, "lineno", line),
+                                    f"'{col}' must be {'divided' if want == 'div' else 'multiplied'} by the unmodified rate exactly once in "
+                                    f"every list that has it; in {cname}: " + "; ".join(bad),
+                                    construct=f"{cname}.{col}: " + "; ".join(bad)))
+            elif good:
+                insts.append(R.ok("C13.R2", key, file, getattr(node, "lineno", line),
+                                  idiom=f"{col} {'/' if want == 'div' else '*'}= rate in all {good} list(s) declaring it"))
+        others = sorted({c for (g, c, op, nd, wh) in sc.list_ops if c not in WANT and c != "*"})
+        for c in others:
+            nd = [x for x in sc.list_ops if x[1] == c][0][3]
+            insts.append(R.viol("C13.R2", f"{cname}:{c}", file, nd.lineno,
+                                f"rate also rewrites '{c}', which is neither a time nor a tempo", construct=unparse(nd)))
     return insts
-
-
-def _calls_rate_with(fn, by: str, ty) -> List[ast.Call]:
-    out = []
-    for n in walk_no_nested(fn.node):
-        if isinstance(n, ast.Call) and isinstance(n.func, ast.Attribute) and n.func.attr == "rate":
-            args = list(n.args) + [k.value for k in n.keywords if k.arg in (None, "by")]
-            if len(args) == 1 and isinstance(args[0], ast.Name) and args[0].id == by:
-                out.append(n)
-            else:
-                out.append(None)
-    return out
 
 
 def rule_r3(ctx) -> List[R.Inst]:
     M = ctx.M
     insts = []
-    # MapSet.rate rates every chart
-    q = RATES[1]
-    fn = M.fn(q)
-    file, line = fn_loc(M, q)
-    by = _by(fn)
-    good = False
-    why = "no per-chart rate call over all charts found"
-    for n in walk_no_nested(fn.node):
-        if isinstance(n, ast.ListComp) and len(n.generators) == 1 and not n.generators[0].ifs:
-            e = n.elt
-            g = n.generators[0]
-            if isinstance(e, ast.Call) and isinstance(e.func, ast.Attribute) and e.func.attr == "rate" and \
-                    isinstance(e.func.value, ast.Name) and isinstance(g.target, ast.Name) and \
-                    e.func.value.id == g.target.id:
-                args = list(e.args) + [k.value for k in e.keywords]
-                if len(args) == 1 and isinstance(args[0], ast.Name) and args[0].id == by:
-                    it = unparse(g.iter)
-                    if it.endswith(".maps") or it in ("self", "copy"):
-                        good = True
-                    else:
-                        why = f"charts are taken from '{it}'"
-                else:
-                    why = "charts are rated by something other than the rate parameter"
-        if isinstance(n, ast.ListComp) and n.generators[0].ifs and "rate" in unparse(n.elt):
-            why = "some charts are filtered out of the rate change"
-    if P.rebinds(fn.node, by):
-        good, why = False, f"'{by}' is modified"
-    insts.append(R.ok("C13.R3", "MapSet.rate", file, line, idiom=f"[m.rate({by}) for m in <copy>.maps]") if good else
-                 R.viol("C13.R3", "MapSet.rate", file, line, why, construct="MapSet.rate propagation"))
-    # overrides call the base with the same rate
-    for q in RATES[2:]:
-        fn = M.fn(q)
+    for ms in concrete_classes(M, "mapset"):
+        sc = RM.effective(ctx, ms)
+        q = M.method(ms, "rate")
         file, line = fn_loc(M, q)
-        by = _by(fn)
-        sup = [n for n in walk_no_nested(fn.node) if isinstance(n, ast.Call) and isinstance(n.func, ast.Attribute) and
-               n.func.attr == "rate" and isinstance(n.func.value, ast.Call) and unparse(n.func.value.func) == "super"]
-        key = short(q)
-        if len(sup) != 1:
-            insts.append(R.viol("C13.R3", key, file, line, "override does not call the base rate exactly once",
-                                construct=f"{key}: {len(sup)} super().rate calls"))
-            continue
-        args = list(sup[0].args) + [k.value for k in sup[0].keywords]
-        if len(args) == 1 and isinstance(args[0], ast.Name) and args[0].id == by and not P.rebinds(fn.node, by):
-            insts.append(R.ok("C13.R3", key, file, sup[0].lineno, idiom=f"super().rate({by})"))
+        key = ms.rsplit(".", 1)[1]
+        if sc.per_chart:
+            insts.append(R.ok("C13.R3", key, file, line, idiom=sc.per_chart_why))
         else:
-            insts.append(R.viol("C13.R3", key, file, sup[0].lineno,
-                                "the base rate is called with something other than the unmodified rate parameter",
-                                construct=unparse(sup[0])))
+            insts.append(R.viol("C13.R3", key, file, line,
+                                sc.per_chart_why or "the effective rate() of this mapset class does not rate every chart",
+                                construct=f"{key}: {sc.per_chart_why or 'no per-chart rate'}"))
     return insts
 
 
@@ -181,57 +139,36 @@ def sm_time_fields(ctx) -> List[str]:
     return out
 
 
-def _field_scalings(fn, by: str) -> Dict[str, Tuple[str, ast.AST]]:
-    out = {}
-    for n in walk_no_nested(fn.node):
-        if isinstance(n, (ast.Assign, ast.AugAssign)):
-            sc = P.scaling(n, by)
-            if sc:
-                ch = attr_chain(sc[0])
-                if ch:
-                    out[".".join(ch[1:])] = (sc[1], n)
-    return out
-
-
 def rule_r4(ctx) -> List[R.Inst]:
     M = ctx.M
     insts = []
-    q = RATES[2]
-    fn = M.fn(q)
-    file, line = fn_loc(M, q)
-    by = _by(fn)
-    sc = _field_scalings(fn, by)
-    for f in ("preview_time", "samples.offset"):
-        key = f"OsuMap.rate:{f}"
-        if f in sc and sc[f][0] == "div":
-            insts.append(R.ok("C13.R4", key, file, sc[f][1].lineno, idiom=f"{f} /= {by}"))
-        else:
-            insts.append(R.viol("C13.R4", key, file, line,
-                                f"file-level time '{f}' is not divided by the rate: it no longer matches the rated chart",
-                                construct=f"OsuMap.rate leaves {f}" + (": " + unparse(sc[f][1]) if f in sc else "")))
-    q = RATES[3]
-    fn = M.fn(q)
-    file, line = fn_loc(M, q)
-    by = _by(fn)
-    sc = _field_scalings(fn, by)
     fields = sm_time_fields(ctx)
     if len(fields) < 3:
         raise AnalysisError(f"SM header time fields derived from the reader: {fields} (expected offset, sample_start, sample_length)")
-    for f in fields:
-        key = f"SMMapSet.rate:{f}"
-        if f in sc and sc[f][0] == "div":
-            insts.append(R.ok("C13.R4", key, file, sc[f][1].lineno, idiom=f"{f} /= {by}"))
-        else:
-            insts.append(R.viol("C13.R4", key, file, line,
-                                f"header time '{f}' (read through sec_to_msec) is not divided by the rate: the written file "
-                                f"no longer matches the rated chart",
-                                construct=f"SMMapSet.rate leaves {f}" + (": " + unparse(sc[f][1]) if f in sc else "")))
+    for cls, flds in (("reamber.osu.OsuMap.OsuMap", ["preview_time", "samples.offset"]),
+                      ("reamber.sm.SMMapSet.SMMapSet", fields)):
+        sc = RM.effective(ctx, cls)
+        q = M.method(cls, "rate")
+        file, line = fn_loc(M, q)
+        cname = cls.rsplit(".", 1)[1]
+        for f in flds:
+            key = f"{cname}.rate:{f}"
+            got = sc.field_ops.get(f)
+            if got and got[0] == "div":
+                insts.append(R.ok("C13.R4", key, M.mods[M.fn("reamber." + got[2]).mod].rel if ("reamber." + got[2]) in M.funcs else file,
+                                  got[1].lineno, idiom=f"{f} /= rate (in {got[2]})"))
+            else:
+                chain = " -> ".join(short(m) for m in sc.methods)
+                insts.append(R.viol("C13.R4", key, file, line,
+                                    f"file-level time '{f}' is not divided by the rate in the code that actually runs for {cname} "
+                                    f"({chain}): the written file no longer matches the rated chart",
+                                    construct=f"{cname}.rate leaves {f}" + (": " + unparse(got[1]) if got else "")))
     return insts
 
 
 SPECS = [
     RuleSpec("C13.R1", rule_r1, 4, "A3", "copy first: every mutation is rooted in a deep copy, the copy is returned"),
-    RuleSpec("C13.R2", rule_r2, 3, "A7", "operator table: offset/length divided, bpm multiplied by the unmodified rate, on all lists"),
+    RuleSpec("C13.R2", rule_r2, 18, "A7", "operator table: offset/length divided, bpm multiplied by the unmodified rate, on all lists"),
     RuleSpec("C13.R3", rule_r3, 3, "A8", "per-chart propagation with the same rate; overrides call the base"),
     RuleSpec("C13.R4", rule_r4, 5, "A1", "file-level time fields of osu and StepMania scale with the rate"),
 ]
